@@ -83,6 +83,7 @@ type ScStep struct {
 	Target string  `json:"target"` // "" | "ep" | "foreign" | "nil"
 	Tag    int     `json:"tag"`
 	Raw    bool    `json:"raw"`
+	Err    string  `json:"err"` // twrite_mode: what the failing write returns: "" (plain) | deadline | eof | closed_pipe | net_timeout
 	Bad    string  `json:"bad"` // "" | id_outside | v1_big | no_dialect_msg
 	Point  string  `json:"point"`
 	Ms     int     `json:"ms"`
@@ -129,6 +130,8 @@ type ctlRWC struct {
 	drain  bool  // queued data stays readable after Close
 	errWithData bool
 	failUntil   int // writes up to this call number fail ("failn" mode)
+	partial     bool
+	failErr     error // what a failing Write returns (nil: a plain error)
 	okCnt  int64 // completed writes (pacing only)
 	sick   bool  // a write was blocked or failed: excluded from pacing
 }
@@ -191,6 +194,13 @@ func (c *ctlRWC) setMode(mode string, at int) {
 	c.mu.Lock()
 	c.wmode = mode
 	c.failAt = 0
+	// "fail_partial" / "failn_partial": the failing Write reports that it took part of the frame (0 < n < len), as a
+	// deadline expiring on a nearly full socket buffer does
+	c.partial = strings.HasSuffix(mode, "_partial")
+	mode = strings.TrimSuffix(mode, "_partial")
+	if c.partial {
+		c.wmode = mode
+	}
 	if mode == "fail" {
 		c.failAt = c.wcount + at
 		c.wmode = "ok"
@@ -218,8 +228,16 @@ func (c *ctlRWC) Write(b []byte) (int, error) {
 	if (c.failAt > 0 && k == c.failAt) || k <= c.failUntil {
 		c.sick = true
 		c.mu.Unlock()
-		c.p.rec.Put(M{"e": "TWFail", "ep": c.ep, "n": len(b), "closed": false, "t": c.p.ms()})
-		return 0, errWriteInjected
+		took := 0
+		if c.partial && len(b) > 1 {
+			took = 1 + len(b)/3
+		}
+		c.p.rec.Put(M{"e": "TWFail", "ep": c.ep, "n": len(b), "closed": false, "took": took, "t": c.p.ms()})
+		werr := c.failErr
+		if werr == nil {
+			werr = errWriteInjected
+		}
+		return took, werr
 	}
 	if c.wmode == "block" {
 		c.sick = true
